@@ -175,10 +175,14 @@ LeafAttempt(it, R, envv, acc0) ==
             ELSE [res |-> "ok", used |-> {POOL}, left |-> h.p, all |-> FALSE, v |-> IF it.vt = "int" THEN ToInt(h.w) ELSE h.w]
   ELSE
   LET occ == R[it.id]
-      \* the environment stands in for an item only when the line does not mention the item at all
-      ev  == IF acc0[it.id] = <<>> THEN EnvOf(envv, it) ELSE "UNSET" IN
+      \* the environment stands in for an item whenever no occurrence of it is left for this evaluation; a value
+      \* from there that fails conversion or the guard makes the member fail for good ("ehard")
+      ev  == EnvOf(envv, it) IN
   IF occ = <<>> /\ ev # "UNSET"
-  THEN IF it.kind = "arg" /\ BadValue(it, ev) THEN [res |-> "hard", v |-> "NONE", used |-> {}, left |-> 0, all |-> FALSE]
+  THEN IF it.kind = "arg" /\ BadValue(it, ev)
+       \* (when the line does give the item - in an earlier block - its variable is not what the user relies on: the
+       \* member is merely absent from this block)
+       THEN [res |-> IF acc0[it.id] = <<>> THEN "ehard" ELSE "miss", v |-> "NONE", used |-> {}, left |-> 0, all |-> FALSE]
        ELSE [res |-> "ok", used |-> {}, left |-> 0, all |-> FALSE,
              v |-> IF it.kind = "switch" THEN TRUE
                    ELSE IF it.kind # "arg" THEN "U"
@@ -219,6 +223,9 @@ AltRounds(f, R, vals, fuel, envv, acc0) ==
       Z == {b \in DOMAIN A : A[b].res = "ok"} IN
   IF \E b \in DOMAIN A : A[b].res = "hard" THEN [ok |-> FALSE, why |-> [k |-> "conv"]]
   ELSE IF Z = {} /\ \E b \in DOMAIN A : A[b].res = "phard" THEN [ok |-> FALSE, why |-> [k |-> "conv"]]
+  \* an invalid value from the environment is final - except in a later round in which nothing is consumed: the
+  \* values typed on the line have been used up and the repetition simply ends there
+  ELSE IF (S # {} \/ vals = <<>>) /\ \E b \in DOMAIN A : A[b].res = "ehard" THEN [ok |-> FALSE, why |-> [k |-> "conv"]]
   ELSE IF S = {} \/ fuel = 0
        THEN \* a repetition keeps one value of a parser that succeeds without consuming anything (defaults,
             \* environment) - the first time round only
@@ -252,7 +259,7 @@ AltVal(f, acc, envv, pool) ==
          Z == {b \in DOMAIN A : A[b].res = "ok"}
          S == {b \in Z : A[b].used # {}}
          Wrap(x) == IF f.arity = "opt" THEN [some |-> x] ELSE x IN
-     IF \E b \in DOMAIN A : A[b].res = "hard" THEN [ok |-> FALSE, why |-> [k |-> "conv"]]
+     IF \E b \in DOMAIN A : A[b].res \in {"hard", "ehard"} THEN [ok |-> FALSE, why |-> [k |-> "conv"]]
      ELSE IF Z = {}
      THEN IF \E b \in DOMAIN A : A[b].res = "phard" THEN [ok |-> FALSE, why |-> [k |-> "conv"]]
           ELSE IF Leftover(f, R0) THEN [ok |-> FALSE, why |-> [k |-> "leftover"]]
